@@ -460,7 +460,56 @@ def generate():
         rx, flags = find_regex(pdt)
         if rx != r"^(.*?)\s+at\s+(.*)$" or flags != ["re.I"]:
             raise Unsupported("parse_daytime regex changed: %r" % rx)
+        # ---- _ctime_functions.py: where the creation time of a file comes from
+        ct, _ = parse_module("_ctime_functions.py")
+        load = find_func(ct, "load_ctime_functions")
+        tests = [ast.unparse(st.test) for st in load.body if isinstance(st, ast.If)]
+        if tests != ["os.name == 'nt'", "hasattr(os.stat_result, 'st_birthtime')",
+                     "hasattr(os, 'getxattr') and hasattr(os, 'setxattr')"]:
+            raise Unsupported("platform dispatch of load_ctime_functions changed: %r" % (tests,))
+
+        def stat_field(fn_name):
+            """the `st_*` field a getter returns from os.stat(filepath) (last return of the function)"""
+            fn = find_func(load, fn_name)
+            rets = [n for n in ast.walk(fn) if isinstance(n, ast.Return)]
+            v = rets[-1].value
+            if not (isinstance(v, ast.Attribute) and ast.unparse(v.value) == "os.stat(filepath)"
+                    and v.attr in ("st_mtime", "st_ctime", "st_atime", "st_birthtime")):
+                raise Unsupported("%s does not return a time field of os.stat(filepath): %s" % (fn_name, ast.unparse(v)))
+            return fn, v.attr
+
+        gl, linux_field = stat_field("get_ctime_linux")
+        tr_ = gl.body[0]
+        if not (len(gl.body) == 1 and isinstance(tr_, ast.Try) and len(tr_.body) == 1 and len(tr_.handlers) == 1
+                and ast.unparse(tr_.handlers[0].type) == "OSError" and len(tr_.handlers[0].body) == 1
+                and isinstance(tr_.body[0], ast.Return)):
+            raise Unsupported("get_ctime_linux shape")
+        g = tr_.body[0].value
+        if not (isinstance(g, ast.Call) and ast.unparse(g.func) == "float" and len(g.args) == 1
+                and isinstance(g.args[0], ast.Call) and ast.unparse(g.args[0].func) == "os.getxattr"
+                and ast.unparse(g.args[0].args[0]) == "filepath" and isinstance(g.args[0].args[1], ast.Constant)):
+            raise Unsupported("get_ctime_linux does not read float(os.getxattr(filepath, b'…'))")
+        get_attr = g.args[0].args[1].value.decode("ascii")
+        sl = find_func(load, "set_ctime_linux")
+        sets = [n for n in ast.walk(sl) if isinstance(n, ast.Call) and ast.unparse(n.func) == "os.setxattr"]
+        if len(sets) != 1 or ast.unparse(sets[0].args[0]) != "filepath" or not isinstance(sets[0].args[1], ast.Constant) \
+                or ast.unparse(sets[0].args[2]) != "str(timestamp).encode('ascii')":
+            raise Unsupported("set_ctime_linux shape")
+        set_attr = sets[0].args[1].value.decode("ascii")
+        _, fb_field = stat_field("get_ctime_fallback")
+        _, mac_field = stat_field("get_ctime_macos")
+        _, win_field = stat_field("get_ctime_windows")
+        for nm in ("set_ctime_fallback", "set_ctime_macos"):
+            if [ast.unparse(x) for x in find_func(load, nm).body] != ["pass"]:
+                raise Unsupported(nm + " is no longer a no-op")
+        body += "/-- the extended attribute `get_ctime_linux` reads / `set_ctime_linux` writes -/\n"
+        body += "def ctimeGetAttr : Py.Str := %s\ndef ctimeSetAttr : Py.Str := %s\n" % (lean_chars(get_attr), lean_chars(set_attr))
+        body += "/-- `get_ctime_linux` when the attribute cannot be read: os.stat(filepath).%s -/\n" % linux_field
+        body += "def ctimeLinuxFallback (st : StatTimes) : Int := st.%s\n" % linux_field
+        body += "/-- `get_ctime_fallback` (no xattr support at all): os.stat(filepath).%s -/\n" % fb_field
+        body += "def ctimeNoXattr (st : StatTimes) : Int := st.%s\n" % fb_field
+        body += "def ctimeMacos (st : StatTimes) : Int := st.%s\ndef ctimeWindows (st : StatTimes) : Int := st.%s\n\n" % (mac_field, win_field)
     except (Unsupported, SyntaxError, KeyError, AttributeError, IndexError, ValueError) as e:
         errors.append("%s: %s" % (type(e).__name__, e))
     body += "end Rotation.Gen\n"
-    return emit("Rotation", body, ["loguru/_file_sink.py", "loguru/_string_parsers.py"], errors)
+    return emit("Rotation", body, ["loguru/_file_sink.py", "loguru/_string_parsers.py", "loguru/_ctime_functions.py"], errors)
